@@ -71,7 +71,10 @@ INFO = {
    "a native x64 build that executes f64.convert_i32_u on a non-constant operand >= 2147483648"),
 }
 
+rows = []
 for d in sorted(glob.glob(os.path.join(V, "seeded", "*"))):
+    if not os.path.isdir(d):
+        continue
     name = os.path.basename(d)
     rp = os.path.join(d, "result.json")
     if not os.path.exists(rp):
@@ -99,3 +102,37 @@ for d in sorted(glob.glob(os.path.join(V, "seeded", "*"))):
     meta.update(extra)
     json.dump(meta, open(os.path.join(d, "meta.json"), "w"), indent=1, ensure_ascii=False)
     print(name, "caught" if meta["check"]["caught"] else "NOT caught (exit %s)" % r["check_exit"])
+    before = extra.get("check_before_strengthening")
+    rows.append((name, r["property"], change, needs, meta["check"]["caught"], meta["check"]["violation_keys"], before, extra.get("strengthening", ""),
+                 r["build"], r["existing_suite_with_change"], r["demo_without_change"], r["demo_with_change"]))
+
+with open(os.path.join(V, "seeded", "README.md"), "w") as f:
+    f.write("""# Independently seeded changes
+
+Each directory holds one change to wa-lang/wa written by a fresh sub-agent that was given only
+the text of one property and a scratch git worktree of /repo (nothing from /verif). The change
+breaks the property while the repository still builds and its existing test suite still passes.
+Every claim was re-confirmed here in a scratch worktree (`tools/seed-intake.sh`, `tools/seed-demo.sh`):
+build, existing suite with the change, the agent's demonstration without and with the change, and
+the property's quick check against the changed tree (`tools/mutant-run.sh`, which never touches /repo).
+None of these changes is committed to /repo.
+
+Files per directory: `patch.diff`, `notes.md` (the agent's description), `demo/` (its demonstration),
+`meta.json` (what it breaks, what it needs to manifest, what was run, outcome), logs of the confirmation runs.
+`meta.json` is generated by `tools/seed-meta.py` from `result.json` (+ `extra.json` for checks that were
+strengthened because of the seed).
+
+| seed | build / suite / demo without / demo with | caught by `./check %s quick` | violation keys | check strengthened because of it |
+|---|---|---|---|---|
+""" % "<ID>")
+    for (name, pid, change, needs, caught, keys, before, strength, build, suite, dwo, dwi) in rows:
+        st = ""
+        if before is not None:
+            st = "yes (missed before)" if not before.get("caught") else "yes"
+        f.write("| %s | %s / %s / %s / %s | %s | %s | %s |\n" % (name, build, suite, dwo, dwi, "yes" if caught else "**no**",
+                "<br>".join("`%s`" % k.replace("|", "\\|") for k in keys[:4]) + (" …" if len(keys) > 4 else ""), st))
+    f.write("\n## What each change breaks and what it needs to manifest\n\n")
+    for (name, pid, change, needs, caught, keys, before, strength, *_rest) in rows:
+        f.write("- **%s** (%s): %s. Needs: %s.%s\n" % (name, pid, change, needs, (" Strengthening: " + strength) if strength else ""))
+    n = len(rows); c = sum(1 for r in rows if r[4]); b = sum(1 for r in rows if r[6] is not None and not r[6].get("caught"))
+    f.write("\n%d seeds, %d caught by the current checks; %d of them were missed by the check as first built and led to a stronger generator.\n" % (n, c, b))
